@@ -142,6 +142,21 @@ class World:
     def case(self, *parts):
         self.distinct.add(h64(*parts))
 
+    def monitor_after_op(self, op):
+        """Engines other than S: a firing of the in-library monitor is counted;
+        it becomes a C01 violation when this run is a slice of the C01 check."""
+        from sim import world as W
+        if W.MON.fired:
+            msg, cls = W.MON.fired[0]
+            n = len(W.MON.fired)
+            W.MON.fired.clear()
+            self.note("monitor_fired", n)
+            if self.cfg.get("monitor_is_violation"):
+                raise Violation("C01.monitor", "while executing %s the library built an ill-typed %s on its "
+                                "trusted fast path: %s (%d firings)" % (op.get("op"), cls, msg, n))
+            return msg, cls
+        return None
+
     def apply(self, op):          # pragma: no cover - overridden
         raise NotImplementedError
 
@@ -273,12 +288,14 @@ def minimise(engine, prop, cfg, ops, kind, wall_s=60.0, max_candidates=2000):
     return best, final, tried
 
 
-def write_replay(prop, engine_name, verif_seed, res, ops, violation, minimised, tree, suffix=""):
+def write_replay(prop, engine_name, verif_seed, res, ops, violation, minimised, tree, suffix="",
+                 world_prop=None):
     os.makedirs(REPLAY_DIR, exist_ok=True)
+    tag = prop if world_prop in (None, prop) else "%s-%s" % (prop, world_prop)
     path = os.path.join(REPLAY_DIR, "%s-%d-%d%s.json" % (
-        prop, verif_seed, res["run_index"], suffix))
+        tag, verif_seed, res["run_index"], suffix))
     doc = {
-        "property": prop, "engine": engine_name, "verif_seed": verif_seed,
+        "property": prop, "world_prop": world_prop or prop, "engine": engine_name, "verif_seed": verif_seed,
         "run_index": res["run_index"], "run_seed": res["run_seed"],
         "config": res["cfg"], "ops": ops, "violation": violation,
         "minimised": minimised, "tree": tree,
@@ -320,8 +337,10 @@ def _worker_chunk(args):
     for idx in indices:
         signal.setitimer(signal.ITIMER_REAL, _RUN_LIMIT_S)
         faulthandler.dump_traceback_later(_RUN_LIMIT_S + 30, exit=True)
+        t_run = time.time()
         try:
             res = run_one(engine, prop, verif_seed, idx, tier, cfg_override)
+            res["wall"] = time.time() - t_run
         except HarnessTimeout:
             out.append({"run_index": idx, "harness": "HARNESS-TIMEOUT", "trace": ""})
             continue
@@ -332,7 +351,8 @@ def _worker_chunk(args):
         finally:
             signal.setitimer(signal.ITIMER_REAL, 0)
             faulthandler.cancel_dump_traceback_later()
-        if res["violation"] is not None and do_min:
+        if res["violation"] is not None and do_min and (
+                do_min is True or res["violation"]["kind"].startswith(do_min)):
             signal.setitimer(signal.ITIMER_REAL, _RUN_LIMIT_S)
             try:
                 ops, final, tried = minimise(
@@ -357,7 +377,7 @@ def _worker_chunk(args):
 
 
 def run_batch(engine_name, prop, verif_seed, n_runs, tier, wall_cap_s, workers=None,
-              cfg_override=None, chunk=None, first_index=0, max_violations=3):
+              cfg_override=None, chunk=None, first_index=0, max_violations=3, do_min=True):
     """Run n_runs simulated runs over a fork pool.  Returns an aggregate dict."""
     from concurrent.futures import ProcessPoolExecutor, wait, FIRST_COMPLETED
     import multiprocessing
@@ -367,7 +387,7 @@ def run_batch(engine_name, prop, verif_seed, n_runs, tier, wall_cap_s, workers=N
     agg = {
         "runs": 0, "steps": 0, "counters": collections.Counter(), "distinct": set(),
         "states": set(), "digests": {}, "violations": [], "harness": [],
-        "samples": [], "submitted": 0, "wall_capped": False,
+        "samples": [], "submitted": 0, "wall_capped": False, "slowest": [],
     }
     ctx = multiprocessing.get_context("fork")
     indices = list(range(first_index, first_index + n_runs))
@@ -377,12 +397,14 @@ def run_batch(engine_name, prop, verif_seed, n_runs, tier, wall_cap_s, workers=N
         try:
             while nxt < len(chunks) or pending:
                 while nxt < len(chunks) and len(pending) < workers * 2:
-                    if time.time() - t0 > wall_cap_s or len(agg["violations"]) >= max_violations:
+                    if time.time() - t0 > wall_cap_s or len([
+                            v for v in agg["violations"]
+                            if do_min is True or v["violation"]["kind"].startswith(do_min)]) >= max_violations:
                         agg["wall_capped"] = time.time() - t0 > wall_cap_s
                         nxt = len(chunks)
                         break
                     pending.add(pool.submit(_worker_chunk, (
-                        engine_name, prop, verif_seed, chunks[nxt], tier, cfg_override, True)))
+                        engine_name, prop, verif_seed, chunks[nxt], tier, cfg_override, do_min)))
                     agg["submitted"] += len(chunks[nxt])
                     nxt += 1
                 if not pending:
@@ -405,6 +427,8 @@ def run_batch(engine_name, prop, verif_seed, n_runs, tier, wall_cap_s, workers=N
                         agg["distinct"] |= res["distinct"]
                         agg["states"] |= res["states"]
                         agg["digests"][res["run_index"]] = res["digest"]
+                        agg["slowest"] = sorted(agg["slowest"] + [(round(res.get("wall", 0), 2),
+                                                                   res["run_index"])])[-5:]
                         if res["violation"] is not None:
                             agg["violations"].append(res)
                         if res.get("ops") is not None and len(agg["samples"]) < 3 \
